@@ -6,6 +6,7 @@ cd "$(dirname "$0")/.."
 par=${1:-3}
 ls -d seeded/*/ | while read d; do
   name=$(basename "$d"); prop=${name%%-*}
+  grep -q '"obsolete": true' "$d/meta.json" 2>/dev/null && continue   # neutralised by a later /repo fix
   echo "$name $prop"
 done > /tmp/seeded_list.$$
 cat /tmp/seeded_list.$$ | xargs -P "$par" -L 1 sh -c '
